@@ -32,20 +32,26 @@ def hitStep (dbg : Bool) (b : Array Nat) (h : Nat × Nat) : Option (Array Nat) :
 def accumulate (dbg : Bool) (blk : Array Nat) (hits : List (Nat × Nat)) : Option (Array Nat) :=
   hits.foldlM (hitStep dbg) blk
 
-/-- positions hit by one prime of the classes `log ≤ 12` (both cursors: the 4-at-a-time unrolled loop,
-then the two tail loops), in the order of the code. -/
+/-- the 4-at-a-time unrolled loop of one prime of the classes `log ≤ 12` (only when both cursors exist):
+positions hit, and the two cursors after `off += kp`. -/
+def pairShift (p off1 off2 : Nat) : Option (List Nat × Nat × Nat) :=
+  if off1 ≠ NONE ∧ off2 ≠ NONE then
+    if BLOCK < p + max off1 off2 then none                            -- len - p - m underflows
+    else (unrolled BLOCK p off1 off2 (max off1 off2) (BLOCK + 1) 0).map fun lk =>   -- while kp < len - p - m
+      (lk.1, off1 + lk.2, off2 + lk.2)
+  else some ([], off1, off2)
+
+/-- `while off < len { blk[off] += log; off += p }` unless the cursor is the marker. -/
+def tailHits (p o : Nat) : Option (List Nat) :=
+  if o ≠ NONE then arith p BLOCK (BLOCK + 1) o else some []
+
+/-- positions hit by one prime of the classes `log ≤ 12` (both cursors: the unrolled loop, then the two
+tail loops), in the order of the code. -/
 def pairHits (p off1 off2 : Nat) : Option (List Nat) := do
-  let (l, o1, o2) ←
-    if off1 ≠ NONE ∧ off2 ≠ NONE then
-      let m := max off1 off2
-      if BLOCK < p + m then none                                     -- len - p - m underflows
-      else do
-        let (l, kp) ← unrolled BLOCK p off1 off2 m (BLOCK + 1) 0      -- while kp < len - p - m
-        some (l, off1 + kp, off2 + kp)
-    else some ([], off1, off2)
-  let t1 ← if o1 ≠ NONE then arith p BLOCK (BLOCK + 1) o1 else some []
-  let t2 ← if o2 ≠ NONE then arith p BLOCK (BLOCK + 1) o2 else some []
-  some (l ++ t1 ++ t2)
+  let r ← pairShift p off1 off2
+  let t1 ← tailHits p r.2.1
+  let t2 ← tailHits p r.2.2
+  some (r.1 ++ t1 ++ t2)
 
 /-- positions hit by one cursor of the classes 13..15. -/
 def singleHits (p off : Nat) : Option (List Nat) :=
@@ -191,17 +197,23 @@ def scanChunk (dbg : Bool) (fb : FB) (s : State) (threshold threshold2 thr mzero
     some (r.filterMap id)
   else some []
 
+/-- a `u32` product: checked or wrapping. -/
+def mulU32 (dbg : Bool) (m : Nat) : Option Nat :=
+  if m ≥ 2 ^ 32 then (if dbg then none else some (m % 2 ^ 32)) else some m
+
+/-- `threshold2 - 1` in `u8`: checked or wrapping. -/
+def thrOf (dbg : Bool) (threshold2 : Nat) : Option Nat :=
+  if threshold2 = 0 then (if dbg then none else some 255) else some (threshold2 - 1)
+
 /-- the list `res` of reported positions (`threshold : u8`, `root : Option<u32>`). -/
 def reportScan (dbg : Bool) (fb : FB) (s : State) (blk : Array Nat) (threshold : Nat) (root : Option Nat) :
     Option (List Nat) := do
   let sb ← skipbits fb s.idxskip
-  let sb := sb + (if root.isSome then 15 else 0)
-  let threshold2 := threshold - (min sb (threshold / 2)) % 256
-  let m := (s.nblocks % 2 ^ 32) * BLOCK                              -- nblocks as u32 * BLOCK_SIZE as u32
-  let m ← if m ≥ 2 ^ 32 then (if dbg then none else some (m % 2 ^ 32)) else some m
-  let mzeros := lz32 (m / 2)
-  let thr ← if threshold2 = 0 then (if dbg then none else some 255) else some (threshold2 - 1)
-  let rs ← (List.range' 0 (BLOCK / 16)).mapM (scanChunk dbg fb s threshold threshold2 thr mzeros root blk)
+  let threshold2 := threshold - (min (sb + (if root.isSome then 15 else 0)) (threshold / 2)) % 256
+  let m ← mulU32 dbg ((s.nblocks % 2 ^ 32) * BLOCK)                  -- nblocks as u32 * BLOCK_SIZE as u32
+  let thr ← thrOf dbg threshold2
+  let rs ← (List.range' 0 (BLOCK / 16)).mapM
+    (scanChunk dbg fb s threshold threshold2 thr (lz32 (m / 2)) root blk)
   some rs.flatten
 
 /-- `smooths(threshold, root, polyroots)`: reported positions and their factor lists. -/
